@@ -6,10 +6,17 @@
                          consistent with real time, that the model explains?
                          item = <tok>@<inv>-<resp>=<obs>[+<obs>...]   (times: integers; obs "-" = none)
 
-   tokens   c | f:<conn>:<key> | b:<conn> | m:<conn> | s:<conn> | w:<key>
+   tokens   c | f:<conn>:<key> | b:<conn> | m:<conn> | s:<conn> | sc:<conn> | sr:<conn> | w:<key>
+            (s, sc, sr: the connection ends by FIN, close, RST - one and the same model operation Stop)
    obs      j:<conn>:<key>:<e> | l:<conn>:<key> | r:<caller>:<conn> | n:<caller>
             (in reglin the caller of r/n is written * and not compared: caller numbers depend on the order;
-             the expectation "x" accepts whatever the model observes, the operation must only be enabled) *)
+             r:*:* = handed to SOME connection (it ended before its terminal read the command);
+             the expectation "x" accepts whatever the model observes, the operation must only be enabled)
+
+   The search is a depth-first search over the orders that respect real time (an operation may come next
+   iff no other remaining operation returned before it was invoked); every candidate order is executed by
+   the extracted Registry.step.  (set of remaining operations, model state) pairs that failed are
+   remembered, so the search is linear in the number of distinct such pairs. *)
 open Drv_common
 open Registry
 
@@ -19,7 +26,7 @@ let choice_of_tok (t : string) : choice =
   | ["f"; c; k] -> FirstMsg (nat_of_int (int_of_string c), n_of_int (int_of_string k))
   | ["b"; c] -> BadKeyMsg (nat_of_int (int_of_string c))
   | ["m"; c] -> Msg (nat_of_int (int_of_string c))
-  | ["s"; c] -> Stop (nat_of_int (int_of_string c))
+  | [("s" | "sc" | "sr"); c] -> Stop (nat_of_int (int_of_string c))
   | ["w"; k] -> Send (n_of_int (int_of_string k))
   | _ -> failwith ("bad token " ^ t)
 
@@ -49,12 +56,21 @@ let parse_item (s : string) : item =
 
 exception Budget
 
+let matches (expect : string) (o : obs list) : bool =
+  expect = "x" || show_obs ~anon:true o = expect ||
+  (expect = "r:*:*" && (match o with [ORouted _] -> true | _ -> false))
+
 let linearisable (items : item array) : bool =
   let n = Array.length items in
+  if n > 60 then failwith "history too long";
   let used = Array.make n false in
   let budget = ref 3_000_000 in
+  let failed : (int * st, unit) Hashtbl.t = Hashtbl.create 1024 in
+  let mask () = let m = ref 0 in Array.iteri (fun i u -> if u then m := !m lor (1 lsl i)) used; !m in
   let rec go (s : st) (left : int) : bool =
-    if left = 0 then true else begin
+    if left = 0 then true else
+    let key = (mask (), s) in
+    if Hashtbl.mem failed key then false else begin
       decr budget; if !budget < 0 then raise Budget;
       (* an operation may come next iff no other remaining operation returned before it was invoked *)
       let minresp = ref max_int in
@@ -65,7 +81,7 @@ let linearisable (items : item array) : bool =
         let it = items.(!i) in
         if not used.(!i) && it.inv <= !minresp then begin
           match step s it.ch with
-          | Some (s', o) when it.expect = "x" || show_obs ~anon:true o = it.expect ->
+          | Some (s', o) when matches it.expect o ->
             used.(!i) <- true;
             if go s' (left - 1) then found := true;
             used.(!i) <- false
@@ -73,6 +89,7 @@ let linearisable (items : item array) : bool =
         end;
         incr i
       done;
+      if not !found then Hashtbl.replace failed key ();
       !found
     end in
   go init n
